@@ -139,6 +139,8 @@ def run_fixtures(prop, mod, tier):
 
 
 def write_evidence(prop, tier, seed, level, coverage, assumptions, wall, nviol):
+    if os.environ.get('YRSA_NO_EVIDENCE'):
+        return
     os.makedirs(EVID, exist_ok=True)
     ev = {
         'property_id': prop,
@@ -269,9 +271,13 @@ def main(argv=None):
     rc = 0
     if viol:
         rc = 1
-        os.makedirs(os.path.join(EVID, 'replay'), exist_ok=True)
+        rdir = os.path.join(EVID, 'replay')
+        if os.environ.get('YRSA_NO_EVIDENCE'):
+            import tempfile
+            rdir = tempfile.mkdtemp(prefix='yrsa-replay-')
+        os.makedirs(rdir, exist_ok=True)
         for n, o in enumerate(viol):
-            path = os.path.join(EVID, 'replay', '%s-%d.json' % (prop, n))
+            path = os.path.join(rdir, '%s-%d.json' % (prop, n))
             json.dump({'property': prop, 'rule': o['rule'], 'key': o['key'],
                        'where': o['where'], 'detail': o['detail'],
                        'data': o['data']}, open(path, 'w'), indent=1)
